@@ -21,7 +21,14 @@ def make_scenarios(ctx, count):
         bridged = rng.random() < 0.35
         frames = [G.f_discover(rng, net, m=m, tos=0, bridged=bridged)]
         seq = rng.randint(1, 60000)
+        mtu_changes = {}
         for rnd in range(rng.randint(2, 4)):
+            if rnd > 0 and rng.random() < 0.2:
+                # the link's MTU changes while the interface lives on; what fits into a QueryResp is decided by the MTU
+                # at the time of the Query
+                mtu = rng.choice([576, 1500, 9000, G.pick_mtu(rng)])
+                cap = G.cap_qresp(mtu)
+                mtu_changes[len(frames)] = mtu
             if rnd > 0 and rng.random() < 0.3:
                 # nothing is pending here (drained or reset); quick-discovery traffic must not stop recording
                 if rng.random() < 0.5:
@@ -88,10 +95,11 @@ def make_scenarios(ctx, count):
                 frames.append(G.f_discover(rng, net, m=m, tos=0, bridged=bridged))
                 seq = seq + 1 if seq < 0xFFFF else 1
                 frames.append(G.f_query(rng, net, m, seq=seq, bridged=bridged))
-        s = H.Scenario("q%d" % i, meta=dict(frames=frames, own=own, mtu=mtu, bridged=bridged))
+        s = H.Scenario("q%d" % i, meta=dict(frames=frames, own=own, mtu=cfg["mtu"], bridged=bridged, mtu_changes=mtu_changes))
         s.iface(0, **H.iface_kw(cfg)).glob(**G.global_kw(G.rand_global(rng, icon_size=50)))
         s.add("OPT sleep=0")
-        s.frames(0, frames, rng if i % 2 else None, p_gap=0.25, base=True)
+        s.frames(0, frames, rng if i % 2 else None, p_gap=0.25, base=True,
+                 inserts={k: ["MTU 0 %d %d" % (v, cfg["rxseed"])] for k, v in mtu_changes.items()})
         scns.append(s)
     return scns
 
@@ -111,6 +119,10 @@ def monitor(scn, sobj, rep, sf, ck):
         if idx >= len(frames):
             break
         fr = frames[idx]
+        if idx in sobj.meta.get("mtu_changes", {}):
+            mtu = sobj.meta["mtu_changes"][idx]
+            cap = G.cap_qresp(mtu)
+            seen.add("mtu-changed-mid-history")
         mm.step(fr)
         if inp.out is None:
             break
@@ -223,6 +235,6 @@ def run(ctx):
     run_monitored(ctx, plain, scns, monitor, tag="query-plain")
     c = rep.counters
     rep.need("queries_judged", c.get("queries_judged", 0), 2000)
-    for name in ("more-bit", "bridged", "direct", "drain>=3-queries", "empty-query", "at-or-over-capacity"):
+    for name in ("more-bit", "bridged", "direct", "drain>=3-queries", "empty-query", "at-or-over-capacity", "mtu-changed-mid-history"):
         rep.need(name, c.get("reach:" + name, 0), 10)
     rep.need("clock_gaps_between_frames", rep.counters.get("clock_gaps_between_frames", 0), 200)
